@@ -1727,16 +1727,54 @@ def _np_minimum(i, a, k):
     return elementwise2(i, ops.np_min2, a[0], a[1])
 
 
+def _axis1(i, kind, a, k):
+    """reduction along axis 1 of a 2-D array with a concrete number of columns (sliding windows): one value per row"""
+    arr = a[0]
+    axis = k.get('axis', a[1] if len(a) > 1 else None)
+    if axis in (1, -1) and isinstance(arr, Arr) and arr.cols is not None:
+        used(f'numpy.{kind} (axis=1, row-wise over {arr.cols} columns)')
+        fn = arr.fn
+
+        def row(kk):
+            r_ = fn(kk)
+            out = reduce_arr(i, 'sum' if kind == 'mean' else kind, Vec(list(r_.e)))
+            return ops.arith('/', out, len(r_.e)) if kind == 'mean' else out
+        return Arr(arr.n, row, np=True)
+    return None
+
+
 def _np_max(i, a, k):
-    return reduce_arr(i, 'max', a[0])
+    r = _axis1(i, 'max', a, k)
+    return r if r is not None else reduce_arr(i, 'max', a[0])
 
 
 def _np_min(i, a, k):
-    return reduce_arr(i, 'min', a[0])
+    r = _axis1(i, 'min', a, k)
+    return r if r is not None else reduce_arr(i, 'min', a[0])
 
 
 def _np_sum(i, a, k):
-    return reduce_arr(i, 'sum', a[0])
+    r = _axis1(i, 'sum', a, k)
+    return r if r is not None else reduce_arr(i, 'sum', a[0])
+
+
+def _np_sliding_window_view(i, a, k):
+    """numpy.lib.stride_tricks.sliding_window_view(x, w) for a 1-D array of symbolic length and a concrete window width:
+    row j is (x[j], ..., x[j + w - 1]); n - w + 1 rows (ValueError when the window is longer than the array)"""
+    x = a[0]
+    w = a[1] if len(a) > 1 else k.get('window_shape')
+    if isinstance(w, (tuple, list)) and len(w) == 1:
+        w = w[0]
+    if not isinstance(w, int) or isinstance(w, bool) or w < 1:
+        raise OutOfSubset('sliding window of symbolic width')
+    arr = as_arr(x)
+    if arr.cols is not None:
+        raise OutOfSubset('sliding window over a 2-D array')
+    used('numpy.lib.stride_tricks.sliding_window_view (rows are the w consecutive elements)')
+    if i.ctx.branch(ops.compare('<', arr.n, w)):
+        raise RaiseSignal('ValueError', 'window shape cannot be larger than input array shape')
+    fn = arr.fn
+    return Arr(ops.arith('+', ops.arith('-', arr.n, w), 1), (lambda kk: Vec([fn(ops.arith('+', kk, t)) for t in range(w)])), np=True, cols=w)
 
 
 def _np_mean(i, a, k):
@@ -2046,7 +2084,7 @@ def ext_call(name):
             'numpy.ceil': _np_ceil, 'numpy.all': np_all, 'numpy.any': np_any, 'numpy.where': _np_where,
             'numpy.maximum': _np_maximum, 'numpy.minimum': _np_minimum, 'numpy.max': _np_max, 'numpy.min': _np_min,
             'numpy.amax': _np_max, 'numpy.amin': _np_min, 'numpy.nanmax': _np_max, 'numpy.nanmin': _np_min,
-            'numpy.sum': _np_sum, 'numpy.mean': _np_mean, 'numpy.abs': _b_abs, 'numpy.absolute': _b_abs, 'numpy.array_equal': _np_array_equal, 'numpy.array_equiv': _np_array_equiv, 'numpy.gcd.reduce': _np_gcd_reduce, 'numpy.lcm.reduce': _np_lcm_reduce,
+            'numpy.sum': _np_sum, 'numpy.mean': _np_mean, 'numpy.lib.stride_tricks.sliding_window_view': _np_sliding_window_view, 'numpy.abs': _b_abs, 'numpy.absolute': _b_abs, 'numpy.array_equal': _np_array_equal, 'numpy.array_equiv': _np_array_equiv, 'numpy.gcd.reduce': _np_gcd_reduce, 'numpy.lcm.reduce': _np_lcm_reduce,
             'numpy.isnan': _np_isnan, 'numpy.round': _np_round, 'numpy.copy': lambda i, a, k: np_copy(a[0]),
             'numpy.sqrt': lambda i, a, k: elementwise1(i, lambda x: np_sqrt_scalar(i, x), a[0]),
             'math.isnan': _math_isnan, 'math.floor': _math_floor, 'math.ceil': _math_ceil, 'math.sqrt': _math_sqrt,
